@@ -238,7 +238,7 @@ def r_sign_carrier(cx):
 # ---------------------------------------------------------------------------------------------------------------------
 # R-ITER-CAP-AGREE (C06, C10): the non-convergence test of the geodesic operator can fire
 
-@rule("R-ITER-CAP-AGREE", ["C06", "C10"])
+@rule("R-ITER-CAP-AGREE", ["C06", "C10", "C14"])
 def r_iter_cap_agree(cx):
     """geodesic_inv reports the number of iterations it used in element 3 of its result, capped by the bound N of its
     loop (`while i < N`). The geodesic operator declares non-convergence when that element exceeds a threshold T.
@@ -299,13 +299,18 @@ def r_iter_cap_agree(cx):
             T = _fnum(c[3])
             direct = lhs[0] == "proj" and lhs[2] == ("elem", 3) and lhs[1][0] == "call"
             N = caps[0][0] if caps else None
-            ok = direct and T is not None and N is not None and 0 <= T < N
+            near = T is not None and N is not None and (N - T) <= max(10, 0.01 * N)
+            ok = direct and T is not None and N is not None and 0 <= T < N and near
             cx.ob("R-ITER-CAP-AGREE", "%s/threshold" % fn, ok,
                   "the operator's non-convergence threshold %s is below geodesic_inv's iteration cap %s and tests the "
                   "returned count" % (T, N) if ok else
                   "the geodesic operator tests non-convergence as `count > %s` but %s: an unconverged solution is returned "
                   "as valid" % (T, ("geodesic_inv never iterates more than %s times" % N) if direct else
-                                "the value tested is not element 3 as returned by geodesic_inv"), cx.where(t["span"]))
+                                "the value tested is not element 3 as returned by geodesic_inv")
+                  if not (direct and T is not None and N is not None and 0 <= T < N) else
+                  "the geodesic operator declares non-convergence for `count > %s` while geodesic_inv iterates up to %s "
+                  "times: solutions that converge in between are valid results of the ellipsoid's method but NaN from "
+                  "the operator" % (T, N), cx.where(t["span"]))
     if n == 0:
         cx.ob("R-ITER-CAP-AGREE", "inner_op::geodesic::inv/threshold", False,
               "the geodesic operator does not test the iteration count returned by geodesic_inv: non-convergence is "
